@@ -558,6 +558,74 @@ theorem C13_cyl_exit_total_generic (dr dz : ℝ) (v d : EV3) (hdx : d.x ≠ 0)
       rw [if_neg (lineAt_not_allNeg v d hdx t1 ht1), if_pos (lineAt_allPos v d t1 ht1)]
     rw [c1]; rfl
 
+private theorem lineAt_not_allNeg_y (v d : EV3) (hdy : d.y ≠ 0) (t : ℝ) (ht : 0 < t) : ¬ allNeg (lineAt v d t) v d := by
+  intro h
+  have := h.2.1 (lt_or_gt_of_ne hdy)
+  simp only [lineAt] at this
+  rw [add_sub_cancel_left, mul_div_cancel_left₀ _ hdy] at this
+  linarith
+
+/-- The other branch of the cylinder code, `d_x = 0` (flight in a plane `x = const`) with `d_y ≠ 0`: for a vertex
+strictly inside the cylinder a pair is always returned, both points on the line of flight, the vertex strictly
+between them.  (The exactly vertical direction `d_x = d_y = 0` divides by `d_y = 0` in the source: there the IEEE
+infinities of the code and Lean's `x/0 = 0` part ways, so that case is left to the Float-twin correspondence run;
+vertices on the boundary: caps are exercised by the harness, the side surface is known finding K18.) -/
+theorem C13_cyl_exit_total_dx_zero (dr dz : ℝ) (v d : EV3) (hdx : d.x = 0) (hdy : d.y ≠ 0)
+    (hin : v.x ^ 2 + v.y ^ 2 < dr ^ 2) (hz : -dz < v.z ∧ v.z < 0) :
+    ∃ a b, cylExit dr dz v d = some (a, b) ∧
+      ∃ ta tb : ℝ, ta < 0 ∧ 0 < tb ∧ a = lineAt v d ta ∧ b = lineAt v d tb := by
+  have hnz : ¬ (d.x < 0 ∨ 0 < d.x) := by rw [hdx]; simp
+  have hpos : 0 < dr * dr - v.x * v.x := by nlinarith [sq_nonneg v.y]
+  set q := Real.sqrt (dr * dr - v.x * v.x) with hq
+  have hqq : q * q = dr * dr - v.x * v.x := Real.mul_self_sqrt hpos.le
+  have hq0 : 0 ≤ q := Real.sqrt_nonneg _
+  have hy : -q < v.y ∧ v.y < q := by
+    constructor
+    · by_contra hcon; push Not at hcon; nlinarith
+    · by_contra hcon; push Not at hcon; nlinarith
+  have hP : cylSidePoints dr v d
+      = (⟨v.x, -q, v.z + (-q - v.y) * d.z / d.y⟩, ⟨v.x, q, v.z + (q - v.y) * d.z / d.y⟩) := by
+    unfold cylSidePoints; rw [if_neg hnz]
+  have hl0 : (⟨v.x, -q, v.z + (-q - v.y) * d.z / d.y⟩ : EV3) = lineAt v d ((-q - v.y) / d.y) := by
+    simp only [lineAt, EV3.mk.injEq, hdx, zero_mul, add_zero, true_and]
+    constructor <;> field_simp <;> ring
+  have hl1 : (⟨v.x, q, v.z + (q - v.y) * d.z / d.y⟩ : EV3) = lineAt v d ((q - v.y) / d.y) := by
+    simp only [lineAt, EV3.mk.injEq, hdx, zero_mul, add_zero, true_and]
+    constructor <;> field_simp <;> ring
+  obtain ⟨t0, hc0, hn0, hp0⟩ := cap_on_line dz v d hz ((-q - v.y) / d.y)
+  obtain ⟨t1, hc1, hn1, hp1⟩ := cap_on_line dz v d hz ((q - v.y) / d.y)
+  rw [← hl0] at hc0
+  rw [← hl1] at hc1
+  unfold cylExit
+  rw [hP]
+  simp only
+  rw [hc0, hc1]
+  have hs0 : -q - v.y < 0 := by linarith [hy.1]
+  have hs1 : 0 < q - v.y := by linarith [hy.2]
+  rcases lt_or_gt_of_ne hdy with hneg | hposy
+  · have ht0 : 0 < t0 := hp0 (div_pos_of_neg_of_neg hs0 hneg)
+    have ht1 : t1 < 0 := hn1 (div_neg_of_pos_of_neg hs1 hneg)
+    refine ⟨lineAt v d t1, lineAt v d t0, ?_, t1, t0, ht1, ht0, rfl, rfl⟩
+    have c0 : classify v d (none, none) (lineAt v d t0) = (none, some (lineAt v d t0)) := by
+      unfold classify
+      rw [if_neg (lineAt_not_allNeg_y v d hdy t0 ht0), if_pos (lineAt_allPos v d t0 ht0)]
+    rw [c0]
+    have c1 : classify v d (none, some (lineAt v d t0)) (lineAt v d t1) = (some (lineAt v d t1), some (lineAt v d t0)) := by
+      unfold classify
+      rw [if_pos (lineAt_allNeg v d t1 ht1)]
+    rw [c1]; rfl
+  · have ht0 : t0 < 0 := hn0 (div_neg_of_neg_of_pos hs0 hposy)
+    have ht1 : 0 < t1 := hp1 (div_pos hs1 hposy)
+    refine ⟨lineAt v d t0, lineAt v d t1, ?_, t0, t1, ht0, ht1, rfl, rfl⟩
+    have c0 : classify v d (none, none) (lineAt v d t0) = (some (lineAt v d t0), none) := by
+      unfold classify
+      rw [if_pos (lineAt_allNeg v d t0 ht0)]
+    rw [c0]
+    have c1 : classify v d (some (lineAt v d t0), none) (lineAt v d t1) = (some (lineAt v d t0), some (lineAt v d t1)) := by
+      unfold classify
+      rw [if_neg (lineAt_not_allNeg_y v d hdy t1 ht1), if_pos (lineAt_allPos v d t1 ht1)]
+    rw [c1]; rfl
+
 /-! ## counting -/
 
 /-- `create_event`: the number of passes reported is at least one; without shadowing it is exactly one; with
@@ -722,7 +790,24 @@ theorem C13_list_count (s : PyrexD.ListGen.St) (i : ℕ) (s' : PyrexD.ListGen.St
     obtain ⟨rfl, rfl⟩ := h
     exact ⟨by simp [PyrexD.ListGen.count]; omega, rfl, Nat.mod_lt _ (by omega)⟩
 
+/-- State kept across calls: assigning `count` changes only the reported number.  The event returned by the next
+`create_event`, whether it stops, and the position afterwards are the same as without the assignment; the reported
+count after the throw is the assigned value plus one. -/
+theorem C13_list_setcount_no_effect (s : PyrexD.ListGen.St) (c : ℤ) :
+    (PyrexD.ListGen.create (PyrexD.ListGen.setCount s c)).2 = (PyrexD.ListGen.create s).2 ∧
+    (PyrexD.ListGen.create (PyrexD.ListGen.setCount s c)).1.index = (PyrexD.ListGen.create s).1.index ∧
+    (∀ i, (PyrexD.ListGen.create s).2 = some i →
+      PyrexD.ListGen.count (PyrexD.ListGen.create (PyrexD.ListGen.setCount s c)).1 = c + 1) := by
+  unfold PyrexD.ListGen.create PyrexD.ListGen.setCount
+  simp only
+  split_ifs <;> simp [PyrexD.ListGen.count] <;> omega
+
 /-! ## non-vacuity -/
+/-- the hypotheses of the two cylinder totality theorems and of the box totality theorem are satisfiable -/
+example : ((1:ℝ) ≠ 0) ∧ (3:ℝ) ^ 2 + 4 ^ 2 < 10 ^ 2 ∧ (-(50:ℝ) < -20 ∧ (-20:ℝ) < 0) := by norm_num
+example : inBox 10 20 30 ⟨-5, 2, 0⟩ ∧ ((0:ℝ) ≠ 0 ∨ (1:ℝ) ≠ 0 ∨ (0:ℝ) ≠ 0) := by
+  unfold inBox; norm_num
+example : (PyrexD.ListGen.create (PyrexD.ListGen.setCount (PyrexD.ListGen.init 3 true) 40)).2 = some 0 := by decide
 example : inBox 10 20 30 ⟨1, 2, -3⟩ := by unfold inBox; norm_num
 example : (PyrexD.ListGen.run (PyrexD.ListGen.init 3 true) 7).2 = [0, 1, 2, 0, 1, 2, 0] := by decide
 example : (PyrexD.ListGen.run (PyrexD.ListGen.init 3 false) 7).2 = [0, 1, 2] := by decide
